@@ -250,10 +250,12 @@ def explore(scn, cfg, monitor_classes, deadline=None, collect_samples=2):
         node, snap, pre = frontier.popleft()
         sim = Sim.restore(scn, snap)
         moves = gen_moves(sim, cfg)
+        cur_kd = hashlib.blake2b(sim.key(with_budget=False).encode(), digest_size=16).digest()
         if sim.h["steps"] >= cfg.horizon and not sim.h["broken"]:
             stats["horizon_hit"] += 1
             complete = False
         progressed = False
+        truncated = False
         ctx = StepCtx(scn, cfg, snap, hist_fn=lambda n=node: history(n))
         first = True
         for (move, cost, btype) in moves:
@@ -267,6 +269,7 @@ def explore(scn, cfg, monitor_classes, deadline=None, collect_samples=2):
                 b[btype] -= 1
             if "dev" in b and cost:
                 if b["dev"] < cost:
+                    truncated = True
                     continue
                 b["dev"] -= cost
             res = sim.apply(move)
@@ -296,6 +299,8 @@ def explore(scn, cfg, monitor_classes, deadline=None, collect_samples=2):
                 continue
             kfull = sim.key(with_budget=False)
             kd = hashlib.blake2b(kfull.encode(), digest_size=16).digest()
+            if kd != cur_kd:
+                progressed = True
             bl = seen.get(kd)
             if bl is not None:
                 # Already explored with a budget that dominates this one?
@@ -311,7 +316,6 @@ def explore(scn, cfg, monitor_classes, deadline=None, collect_samples=2):
             else:
                 seen[kd] = [dict(sim.budget)]
                 stats["states"] += 1
-            progressed = True
             outdeg[node] += 1
             parents.append((node, move))
             depth.append(depth[node] + 1)
@@ -339,8 +343,10 @@ def explore(scn, cfg, monitor_classes, deadline=None, collect_samples=2):
                     stats["pruned_subtrees"] += 1
                     continue
             frontier.append((nid, nsnap, post))
-        if not progressed:
-            # Leaf: nothing new can happen from here (complete history).
+        if truncated and not progressed:
+            stats["truncated_by_deviation_bound"] += 1
+        elif not progressed:
+            # Leaf: every enabled move (if any) leaves the state unchanged (complete history).
             leaves += 1
             simL = Sim.restore(scn, snap)
             if simL.h["started"] and simL.c._workflow_state is not None:
@@ -377,12 +383,16 @@ def explore(scn, cfg, monitor_classes, deadline=None, collect_samples=2):
     return dict(stats), violations, samples, extra
 
 
-def run_path(scn, cfg, monitor_classes, moves):
+def run_path(scn, cfg, monitor_classes, moves, prior=None, monitors=None):
     """Plain replay (no snapshots for stepping) with the monitors attached.
 
     Used to confirm a violation found by the search before it is reported and
-    by ``check --replay``."""
-    monitors = [m(scn, cfg) for m in monitor_classes]
+    by ``check --replay``. ``prior``: histories replayed first with the same monitor
+    instances (properties judged on a set of executions, e.g. C08)."""
+    if monitors is None:
+        monitors = [m(scn, cfg) for m in monitor_classes]
+    for ph in prior or []:
+        run_path(scn, cfg, monitor_classes, ph, monitors=monitors)
     sim = Sim(scn)
     sim.budget = {}
     for m in monitors:
